@@ -364,6 +364,17 @@ def tlsLine (toks : List String) : String :=
   cls ++ " clear=" ++ bit (Tls.clearText c) ++ " answered=" ++ bit answered ++ " served=" ++ bit answered ++
     " | " ++ (match Tls.expected c with | .session => "session" | .plain => "plain" | .refused => "refused") ++ " | -"
 
+/-- `tlsre`: one client object (TLS on), two connections; each is decided by the configuration and the certificate it meets -/
+def tlsreLine (toks : List String) : String :=
+  let verify := kvOf toks "verify" == some "1"
+  let certOf (k : String) : Tls.Cert := match kvOf toks k with
+    | some "wrongname" => .wrongName | some "untrusted" => .untrusted | _ => .good
+  let cls (c : Tls.Cert) := match Tls.outcome ⟨true, verify, true, c, .ip⟩ ['3', '8', '6', '8'] with
+    | .session => "session" | .plain => "plain" | .refused => "refused"
+  let spec (c : Tls.Cert) := match Tls.expected ⟨true, verify, true, c, .ip⟩ with
+    | .session => "session" | .plain => "plain" | .refused => "refused"
+  cls (certOf "c1") ++ " " ++ cls (certOf "c2") ++ " | " ++ spec (certOf "c1") ++ " " ++ spec (certOf "c2") ++ " | -"
+
 def faultItems (kind : String) (k : Nat) : List Acc.Item × Bool :=   -- (what the peer sends, does it finish a handshake)
   match kind with
   | "none" => ([], true)
@@ -626,6 +637,7 @@ def step (s : DState) (line : String) : DState × String :=
     | some bs => (s, decLine s.cfg s.ms.dict bs)
     | none => plain s "bad-op"
   | "tls" :: rest => (s, tlsLine rest)
+  | "tlsre" :: rest => (s, tlsreLine rest)
   | "tlsrude" :: _ => (s, "refused clear=0 conns=1 | refused | -")   -- a failed handshake is a refusal, whatever `verify` says
   | ["amode", _] => plain s "."                -- how the application waits for its futures is invisible to the model
   | ["rmode", _] => plain s "."                -- how the reader hands out the octets is invisible to the model
